@@ -159,6 +159,96 @@ func runJobctlScenarios(c *Ctx) {
 		c.Nontrivial()
 	})
 
+	// F16: the live GET (F8's repair) can observe a newer version of the Pod than the pod cache
+	// serves later; a finished (succeeded) task must not fall back to the stale cached status.
+	c.RunScenario("f16-stale-cache-after-live-get", func() {
+		w := newJobctlSc(c, func(j *execution.Job) { j.Spec.Template.MaxAttempts = i64p(2) })
+		w.flush()
+		w.work()          // creates the pod, records it
+		w.deliver("jobs") // only the Job's own update arrives; the pod's creation event lags
+		k := 0
+		for _, p := range w.ownedPods() {
+			w.forceKind = &k
+			w.kubelet(p, 3) // the pod succeeds
+		}
+		w.work() // pod not in the cache -> live GET sees Succeeded -> Job Finished/Success
+		fin := w.apiJob() != nil && w.apiJob().Status.Condition.Finished != nil
+		w.deliver("jobs")
+		w.deliver("pods") // the OLD creation event: the cache now holds the pod with an empty phase
+		w.work()
+		w.deliver("jobs")
+		w.work()
+		if j := w.apiJob(); fin && j != nil && j.Status.Condition.Finished == nil {
+			c.Violate("C11", "finished-stays-finished", "Job was Finished/Success, became %s after the pod cache delivered the pod's stale creation event", j.Status.Phase)
+		}
+		if n := len(w.ownedPods()); n > 1 {
+			c.Violate("C08", "no-create-for-succeeded-index", "%d pods exist for an index whose first task succeeded", n)
+		}
+		w.flush()
+		w.settle(3)
+		c.Nontrivial()
+	})
+
+	// F17: a task recorded lost (confirmed gone) is not resurrected by the vanished Pod's old events.
+	c.RunScenario("f17-lost-task-resurrected", func() {
+		w := newJobctlSc(c, nil) // maxAttempts 1
+		w.flush()
+		w.work()          // creates the pod, records it
+		w.deliver("jobs") // the pod's creation event lags
+		k := 0
+		for _, p := range w.ownedPods() {
+			w.forceKind = &k
+			w.kubelet(p, 3) // the pod succeeds ...
+		}
+		for _, p := range w.ownedPods() {
+			w.kubelet(p, 6) // ... and its object vanishes; all three events are still undelivered
+		}
+		w.work() // not in the cache, not on the server: recorded lost, Job Finished/Failed
+		var res0 execution.JobResult
+		if j := w.apiJob(); j != nil && j.Status.Condition.Finished != nil {
+			res0 = j.Status.Condition.Finished.Result
+		}
+		w.deliver("jobs")
+		w.deliver("pods") // add
+		w.deliver("pods") // update: Succeeded (the delete event is still queued)
+		w.work()
+		if j := w.apiJob(); j != nil && res0 != "" && (j.Status.Condition.Finished == nil || j.Status.Condition.Finished.Result != res0) {
+			c.Violate("C11", "result-stable", "Job was finished with %s, then rewritten as phase %s after the vanished pod's old events reached the cache", res0, j.Status.Phase)
+		}
+		w.flush()
+		w.settle(3)
+		c.Nontrivial()
+	})
+
+	// F18: the finalizer is not dropped while a task the pod cache never observed still exists.
+	c.RunScenario("f18-finalizer-uncached-finished-task", func() {
+		w := newJobctlSc(c, nil)
+		w.flush()
+		w.work()          // creates the pod, records it
+		w.deliver("jobs") // pod events lag from here on
+		k := 0
+		for _, p := range w.ownedPods() {
+			w.forceKind = &k
+			w.kubelet(p, 3)
+		}
+		w.work() // live GET: Succeeded; Job Finished/Success; ref recorded finished
+		w.deliver("jobs")
+		_ = w.api.Delete("jobs", w.jobKey, false, false)
+		w.userEdited, w.resultEdited = true, true
+		c.Emit("jc.delete", w.state())
+		w.monitorJobVersion()
+		w.deliver("jobs")
+		w.work() // finalizer pass: the pod is not in the cache
+		w.deliver("jobs")
+		w.work()
+		if w.apiJob() == nil && len(w.ownedPods()) > 0 {
+			c.Violate("C13", "job-gone-implies-tasks-gone", "Job removed while %d of its tasks still exist (never seen by the pod cache)", len(w.ownedPods()))
+		}
+		w.flush()
+		w.settle(4)
+		c.Nontrivial()
+	})
+
 	// F15: a task created but not recorded (status update conflict) is still killed with the Job.
 	c.RunScenario("f15-orphan-after-kill", func() {
 		w := newJobctlSc(c, nil)
